@@ -1699,6 +1699,12 @@ class Authenticated(BaseClientHandler):
         #
         expunge_cmd = IMAPClientCommand("A001 EXPUNGE")
         expunge_cmd.command = IMAPCommand.EXPUNGE
+
+        # Anything queued for this client during the copy phase (eg: FETCH's
+        # for newly found messages) uses the message sequence numbers from
+        # before the expunge. It has to go out before the EXPUNGE's do.
+        #
+        await self.send_pending_notifications()
         try:
             idling = self.idling
             self.idling = True
